@@ -22,6 +22,14 @@ def write_evidence(prop, cfg, res):
         samples.append({"obligation": o["name"], "verdict": o["verdict"], "backend": o["backend"]})
     for v in res["violations"][:4]:
         samples.append({"refuted": v["obligation"], "counter_model": v.get("model"), "replay": (v.get("replay") or {}).get("status")})
+    for b in res["bounded"]:
+        for smp in (b.get("samples") or [])[:3]:
+            samples.append({"bounded_case": b.get("name"), "case": smp})
+    for dmn in res["fd_domains"]:
+        for smp in (dmn.get("samples") or [])[:2]:
+            samples.append({"finite_domain_case": dmn.get("name"), "case": smp})
+    if not samples:
+        samples.append({"note": "no obligations generated"})
     by_backend = {}
     for o in obligations:
         by_backend[o["backend"]] = by_backend.get(o["backend"], 0) + 1
@@ -62,8 +70,13 @@ def write_evidence(prop, cfg, res):
         "wall_s": round(res["wall"], 2),
         "violations": res["new_violations"],
     }
-    os.makedirs(os.path.join(VERIF, "evidence"), exist_ok=True)
-    with open(os.path.join(VERIF, "evidence", f"{prop}.json"), "w") as fh:
+    from pyvc import extract
+    evdir = os.path.join(VERIF, "evidence")
+    if extract.REPO != "/repo":
+        # runs against a scratch copy (seeded changes, self-test mutants) never touch the committed evidence
+        evdir = os.path.join(os.environ.get("TMPDIR", "/tmp"), "verif-scratch-evidence")
+    os.makedirs(evdir, exist_ok=True)
+    with open(os.path.join(evdir, f"{prop}.json"), "w") as fh:
         json.dump(ev, fh, indent=1, default=str)
     return ev
 
